@@ -64,7 +64,7 @@ Example w1_repaired_shows_128 :
 Proof. vm_compute. reflexivity. Qed.
 
 Lemma blend_candidate_sound_refuted :
-  exists s d, wf_px s /\ wf_px d /\ lossless_px_ok false s d = true /\ blend_spec d s <> d.
+  exists s d, wf_px s /\ wf_px d /\ lossless_px_ok s d = true /\ blend_spec d s <> d.
 Proof.
   exists (P 10 20 30 128), (P 10 20 30 128).
   repeat split; try (unfold wf_px; cbn; lia). vm_compute. discriminate.
